@@ -71,6 +71,13 @@ Definition enc_rsa_blob_named (name : bytes) (e n : Z) : bytes := enc_string nam
 Definition enc_rsa_blob (e n : Z) : bytes := enc_rsa_blob_named name_ssh_rsa e n.
 Definition enc_dss_blob (p q g y : Z) : bytes := enc_string name_ssh_dss ++ enc_mpint p ++ enc_mpint q ++ enc_mpint g ++ enc_mpint y.
 Definition enc_ed25519_blob (k : bytes) : bytes := enc_string name_ssh_ed25519 ++ enc_string k.
+(* RFC 5656 3.1: string "ecdsa-sha2-[identifier]", string [identifier], string Q, where Q is the point in the uncompressed
+   form of SEC 1 2.3.3: 04 || X || Y, each coordinate in ceil(field size in bits / 8) octets (32, 48, 66 for the nistp
+   curves), leading zero octets included *)
+Definition name_ecdsa_prefix : bytes := ascii_bytes [101; 99; 100; 115; 97; 45; 115; 104; 97; 50; 45].
+Definition enc_ec_point (size : nat) (x y : Z) : bytes := z2b 4 :: be_enc size x ++ be_enc size y.
+Definition enc_ecdsa_blob (identifier : bytes) (size : nat) (x y : Z) : bytes :=
+  enc_string (name_ecdsa_prefix ++ identifier) ++ enc_string identifier ++ enc_string (enc_ec_point size x y).
 
 (* RFC 4253 section 4.2, identification string: SSH-protoversion-softwareversion SP comments CR LF; "the maximum length of
    the string is 255 characters, including the Carriage Return and Line Feed" *)
